@@ -788,6 +788,15 @@ def resolved(expr, funcnode, depth=4):
                 las = local_assigns(funcnode, node.id)
                 if len(las) == 1 and las[0][2] == 'assign' and las[0][0] is not None:
                     return Sub(self.d - 1).visit(_clone_ast(las[0][0]))
+                if len(las) == 1 and las[0][2] == 'unpack' and isinstance(las[0][0], (ast.Name, ast.Attribute)) and isinstance(las[0][1], ast.Assign):
+                    # `_, event, _ = entry`: the element of the sequence at that position
+                    t = las[0][1].targets[0]
+                    if isinstance(t, (ast.Tuple, ast.List)) and not any(isinstance(e, ast.Starred) for e in t.elts) and \
+                            (not isinstance(las[0][0], ast.Name) or node.id != las[0][0].id):
+                        idx = next((i for i, e in enumerate(t.elts) if isinstance(e, ast.Name) and e.id == node.id), None)
+                        if idx is not None:
+                            sub = ast.Subscript(value=_clone_ast(las[0][0]), slice=ast.Constant(value=idx), ctx=ast.Load())
+                            return ast.fix_missing_locations(ast.copy_location(sub, node))
             return node
 
         def visit_IfExp(self, node):
